@@ -176,6 +176,13 @@ func (p *Parser) Parse(formatOnly bool) (*bytes.Buffer, int) {
 	// now that the file was parsed, we replace all definitions
 	if len(p.variables) > 0 {
 		p.dest = expandDefinitions(p.dest, p.variables)
+		// prefixes and suffixes may reference definitions as well
+		for i := range p.Prefixes {
+			p.Prefixes[i] = expandDefinitions(bytes.NewBufferString(p.Prefixes[i]), p.variables).String()
+		}
+		for i := range p.Suffixes {
+			p.Suffixes[i] = expandDefinitions(bytes.NewBufferString(p.Suffixes[i]), p.variables).String()
+		}
 	}
 	return p.dest, wrote
 }
